@@ -14,6 +14,12 @@ package file
 //@   loop 0:
 //@     invariant forall k int :: 0 <= k && k < len(filePaths) ==> !hasPrefix(filePaths[k], ".goit/")
 
+// the unfiltered walk used by add: a function of its own, so that its own reporting obligations (a directory that cannot
+// be listed is an error, in every iteration and every recursive call) are checked here and relied on by its callers
+//@ func GetFilePathsUnderDirectory
+//@   returns paths, err
+//@   pure
+
 // The search for the repository root climbs towards the file-system root and stops there (C18: no command hangs): each
 // recursive call is made on a strictly shorter absolute path.
 //@ func FindGoitRoot
